@@ -548,7 +548,15 @@ def perturb_spec(rng, spec, allow_type_swap=True, allow_dupcenter=False, allow_q
                 cands.append((path, "wrapselect"))
         if not cands:
             return None
-        path, c = rng.choice(cands)
+        # structural parameters (number of bins, edges, widths, names, ...) get well over half of the cases: plain type swaps
+        # and Select wrappers exist at every node and would otherwise crowd them out
+        params = [x for x in cands if x[1] not in ("type", "wrapselect")]
+        if params and rng.random() < 0.65:
+            kinds_ = [k_ for k_ in sorted(set(x[1] for x in params)) for _ in range(1 if (k_.endswith("tiny") or k_ == "dupcenter") else 3)]
+            c_ = rng.choice(kinds_)
+            path, c = rng.choice([x for x in params if x[1] == c_])
+        else:
+            path, c = rng.choice(cands)
         node = _get(s2, path)
         k = node["k"]
         desc = "%s at /%s: %s" % (k, "/".join(map(str, path)), c)
